@@ -127,6 +127,21 @@ func TestC01(t *testing.T) {
 			h.R.Sample("one-edit", nb[len(nb)/2])
 		}
 	}
+	if env.Shards <= 1 {
+		// membership must also hold at particular call numbers after the package's pools have been purged
+		// (recycled parser state with a generation counter or fill level that wraps at 2^8 / 2^16); this
+		// binary is built without the race detector, under which sync.Pool drops entries at random
+		ec := exactCountCases()
+		if !doReplay(h, "exact-count", checkExactCount) {
+			for _, c := range ec {
+				if err := safely(checkExactCount, c); err != nil {
+					h.fail("exact-count", c, err)
+				}
+			}
+			h.R.AddExact(int64(len(ec)), int64(len(ec)))
+			h.R.Count("exact-count cases (pools purged, N in {255,256,65535,65536} warm-up parses, then probes)", int64(len(ec)))
+		}
+	}
 	Rapid(h, "string", n, func(rt *rapid.T) gen.Str {
 		c := gen.AnyString(rt)
 		recordString(h, c)
